@@ -260,7 +260,7 @@ void Exec::op_query(const Json& o,const std::string& op){
   // the GSL-backed matrix functions iterate (eigen solver, Pade order selection): non-finite or overflowing input is outside their
   // preconditions (values can overflow through arithmetic on the 1e150 category, or underflow in the denormal category) and can make
   // GSL's QR iteration loop for ever
-  if(op=="eigen"||op=="utransform_v"||op=="utransform_m"||op=="weighted"||op=="rotate_b"||op=="rotate"){
+  if(op=="eigen"||op=="utransform_v"||op=="utransform_m"||op=="weighted"||op=="rotate_b"||op=="rotate"||op=="const_ops"){
     std::vector<double> av=mvals(c,a); bool fin=true;
     for(size_t i=0;i<av.size();i++) if(!(std::fabs(av[i])<1e60) || (av[i]!=0 && std::fabs(av[i])<1e-100)) fin=false;
     if((op=="utransform_v"||op=="weighted")&&usable(b)){ std::vector<double> bv=mvals(c,b); for(size_t i=0;i<bv.size();i++) if(!(std::fabs(bv[i])<1e60) || (bv[i]!=0 && std::fabs(bv[i])<1e-100)) fin=false; }
@@ -315,6 +315,26 @@ void Exec::op_query(const Json& o,const std::string& op){
     });
     verif::alloc_check_guards();
     verif::user_buffer_free(buf);
+  }else if(op=="const_ops"){
+    uint64_t sd=(uint64_t)o["vs"].as_int(1); int variant=(int)(o["variant"].as_int(0)%4);
+    rc=lib_call(c,[&]{
+      squids::Const p; verif::Rng r(sd);
+      for(unsigned j=1;j<d;j++) for(unsigned i=0;i<j;i++){ p.SetMixingAngle(i,j,r.uniform(-1,1)); p.SetPhase(i,j,r.uniform(-1,1)); }
+      for(unsigned k=1;k<d;k++) p.SetEnergyDifference(k,r.uniform(0,2));
+      auto U=p.GetTransformationMatrix(d);
+      SU_vector rot=c.slot[a].v().Rotate(U.get());
+      squids::Const q(std::move(p));                     // moved-to object keeps working
+      double th=q.GetMixingAngle(0,1)+q.GetPhase(0,1)+q.GetEnergyDifference(1); (void)th;
+      squids::Const w; w=std::move(q);
+      auto U2=w.GetTransformationMatrix(d);
+      switch(variant){                                   // calls that must be rejected, in the middle of valid use
+        case 1: try{ w.SetMixingAngle(3,2,0.1); }catch(std::runtime_error&){ } break;
+        case 2: try{ auto bad=w.GetTransformationMatrix(7); (void)bad; }catch(std::runtime_error&){ } break;
+        case 3: try{ (void)w.GetEnergyDifference(0); }catch(std::runtime_error&){ } break;
+        default: break;
+      }
+      SU_vector back=rot.UDaggerTransform(U2.get()); (void)back;
+    });
   }else if(op=="print"){
     rc=lib_call(c,[&]{ std::ostringstream os; os<<c.slot[a].v(); });
   }else if(op=="weighted"){
